@@ -5,9 +5,9 @@ W=$1; M=$2
 export CARGO_NET_OFFLINE=true CARGO_TARGET_DIR=$W/target
 cd $W && git checkout -q -- . && git clean -fdq tests 2>/dev/null
 mkdir -p tests && cp $M/demo.rs tests/seed_demo.rs
-cargo test --offline --test seed_demo >/tmp/sc_clean.log 2>&1; CLEAN=$?
+cargo test --offline --test seed_demo >$W/sc_clean.log 2>&1; CLEAN=$?
 git apply $M/patch.diff || { echo "PATCH-DOES-NOT-APPLY"; exit 1; }
-cargo test --offline --lib 2>&1 | grep -E '^test result' > /tmp/sc_lib.log; 
-cargo test --offline --test seed_demo >/tmp/sc_mut.log 2>&1; MUT=$?
+cargo test --offline --lib 2>&1 | grep -E '^test result' > $W/sc_lib.log; 
+cargo test --offline --test seed_demo >$W/sc_mut.log 2>&1; MUT=$?
 git checkout -q -- . ; rm -f tests/seed_demo.rs; rmdir tests 2>/dev/null
-echo "existing: $(cat /tmp/sc_lib.log | head -1) | demo clean rc=$CLEAN | demo mutated rc=$MUT"
+echo "existing: $(cat $W/sc_lib.log | head -1) | demo clean rc=$CLEAN | demo mutated rc=$MUT"
